@@ -2766,6 +2766,7 @@ class FuncIsinstanceMonad(FuncMonad):
                 subclasses.add(cls)
                 subclasses.update(cls._subclasses_)
         if entity in subclasses:
+            if not isinstance(obj, ObjectIterMonad): return obj.nonzero()  # an attribute value can be None, and isinstance(None, cls) is False
             return BoolExprMonad(['EQ', ['VALUE', 1], ['VALUE', 1]], nullable=False)
 
         subclasses.intersection_update(entity._subclasses_)
